@@ -32,9 +32,14 @@ class C07(F.Spec):
         ops = ["board relay8", "init"]
         mops = ["init"]
         base = rng.choice([1000, 50000, 10 ** 7, 4294967295 // 1000 * 3])
+        chans = list(range(8))
+        rng.shuffle(chans)
+        if rng.random() < .5:
+            chans = list(range(8))
         for idx in range(rng.randint(1, 8)):
             left = rng.choice([1, 49, 50, 120, 499, 500, 501, 999, 5000, 9999, 10000, 10001, 3600000, 0])
-            o = "cdset %d %d %d %d" % (idx, rng.choice([idx, idx, 255]), left, base - rng.choice([0, 10, 400]))
+            # (channel numbers are unique per item, as supla_esp_countdown_timer_countdown keeps them; mostly not the slot index)
+            o = "cdset %d %d %d %d" % (idx, rng.choice([idx, chans[idx], chans[idx], 255]), left, base - rng.choice([0, 10, 400]))
             ops.append(o)
             mops.append(o)
         now = base
@@ -96,7 +101,7 @@ class C07(F.Spec):
                 exp.append([])
             elif op.startswith("cdcb "):
                 ops.append(op)
-                exp.append([x for x in g if x.startswith(("FINISH ", "ITEM ", "DELAY "))])
+                exp.append([x for x in g if x.startswith(("FINISH ", "ITEM ", "DELAY ", "T2L "))])
         return "\n".join(ops) + "\n", exp
 
     def monitor(self, case, groups, rc, err):
